@@ -99,13 +99,13 @@ def blob_of(n, seed):
 
 
 @scenario
-def d1_driver_to_client(n, seed, delivery, fails, d):
+def d1_driver_to_client(n, seed, delivery, fails, d, connect=None):
     """driver publishes; library Client must hold identical bytes; ordinary traffic follows"""
     from mc.core import e2e
 
     w = e2e.World([spec()], guard_buffers=True)
     try:
-        c = w.make_client()
+        c = w.make_client(connect)
         dev = w.devices[0]
         w.delivery = delivery
         b = blob_of(n, seed)
@@ -548,6 +548,13 @@ def _run(shard, tier, seed, what, res, absorb):
                 d2_policy_sequence(300, seed, list(seq), f)
                 absorb(f, dict(kind="polseq", n=300, seed=seed, seq=list(seq)))
                 res["executions"] += 1
+            # the client's control and BLOB connections get established with latency, in either order
+            for order in (("ctl", "blob"), ("blob", "ctl")):
+                for n in (0, 7, 1500, 2300):
+                    f = []
+                    d1_driver_to_client(n, seed, "whole", f, "delivery=whole,connect=%s-first" % order[0], connect=order)
+                    absorb(f, dict(kind="d1", n=n, seed=seed, mode="whole", connect=list(order)))
+                    res["executions"] += 1
             for damage in DAMAGED:
                 for n in (5, 700):
                     f = []
@@ -635,7 +642,7 @@ def _replay(rep):
     k = rep["kind"]
     res = {"states": 0, "transitions": 0}
     if k == "d1":
-        d1_driver_to_client(rep["n"], rep["seed"], rep["mode"], f, "delivery=%s" % rep["mode"])
+        d1_driver_to_client(rep["n"], rep["seed"], rep["mode"], f, "delivery=%s" % rep["mode"] + (",connect=%s-first" % rep["connect"][0] if rep.get("connect") else ""), connect=rep.get("connect"))
     elif k == "d2":
         d2_driver_to_raw(rep["n"], rep["seed"], rep["policy"], "whole", f, "delivery=whole")
     elif k == "d3":
